@@ -187,7 +187,7 @@ func runC01(tier string) int {
 		seqLen = 4
 	}
 	if !r.Expired() {
-		forEachSequenceProgram(r, seqLen, func(w int, p engineProgram) {
+		evalProg := func(w int, p engineProgram) {
 			scripts := []*model.Script{p.Script}
 			src := model.Print(scripts)
 			r.Add("programs", 1)
@@ -216,7 +216,11 @@ func runC01(tier string) int {
 					})
 				}
 			}
-		})
+		}
+		forEachSequenceProgram(r, seqLen, evalProg)
+		if !r.Expired() {
+			forEachScaledProgram(r, evalProg)
+		}
 	}
 	for _, m := range local {
 		fpMu.Lock()
@@ -231,7 +235,7 @@ func runC01(tier string) int {
 		"reference lowering (model/lower.go) = meaning of the README for if/elif/else, while, do...while, break, continue, switch, labels, goto",
 		"operands are distinct per leaf, so every path is feasible (a superset of programs that reuse operands)")
 	return r.Finish(r.Get("evaluations"), r.Get("nontrivial"),
-		"every script body with exactly n nodes of each family (count+unrank, bijective, so cases are distinct by construction) x every goto assignment, plus every sequence of <= L statement templates (22 templates covering every construct), plus two-script files in which gotos cross between the scripts (targets: own labels, a label in the middle of the other script, the other script, an external name), x optimize on/off; each case = full product exploration reference x emitted, all game states closed by a visited set; non-trivial = at least one environment branch point and >= 2 distinct observable events")
+		"every script body with exactly n nodes of each family (count+unrank, bijective, so cases are distinct by construction) x every goto assignment, plus every sequence of <= L statement templates (25 templates covering every construct), plus scaled programs (every template repeated K times, every block kind nested K deep, switches with K cases, for every K up to the scale bounds in the coverage), plus two-script files in which gotos cross between the scripts (targets: own labels, a label in the middle of the other script, the other script, an external name), x optimize on/off; each case = full product exploration reference x emitted, all game states closed by a visited set; non-trivial = at least one environment branch point and >= 2 distinct observable events")
 }
 
 // c01Shape is a coarse shape tag for findings matching.
